@@ -64,6 +64,7 @@ def run(chk):
     chk.rule("R3", "case expressions are compiled branch by branch in order, (condition -> when, value -> then), default only if present")
     chk.rule("R4", "every catalogue operator has an API construction site; generated methods exist for generate_expr_method operators")
     chk.rule("R5", "sign analysis: Polars emulation of truncating // and % yields sign(lhs)*sign(rhs) resp. sign(lhs)")
+    chk.rule("R7", "SQL implementations of string-valued operators return a typed expression (an untyped func.X(..) makes `+` render as numeric addition instead of ||)")
     chk.rule("R6", "nullness analysis: horizontal min / max emulations on strict engines return NULL iff all arguments are NULL")
 
     ce = repo.mod("tree.col_expr")
@@ -209,6 +210,9 @@ def run(chk):
     # ---- R5 sign analysis
     signs.check_polars_div_mod(chk, "R5")
 
+    # ---- R7
+    _typed_string_results(chk, m)
+
     # ---- R6 nullness analysis of the null-skipping emulations
     from .. import nulls
 
@@ -304,3 +308,37 @@ def _case_rule(chk, repo):
             chk.ob("R3", sql, n, "sql CaseExpr: (cond, val) pairs in order of expr.cases", good, why)
     if found < 2:
         raise AnalysisError("C03/R3: CaseExpr branch not found in both compilers")
+
+
+# functions SQLAlchemy knows the result type of (sqlalchemy.sql.functions registry; looked up case-insensitively)
+_SQLA_TYPED_FUNCS = {"concat", "lower", "upper", "coalesce", "max", "min", "sum", "char_length", "count", "now", "current_date",
+                     "current_timestamp", "localtime", "localtimestamp", "random", "user", "session_user", "current_user"}  # fmt: skip
+
+
+def _typed_string_results(chk, m):
+    """R7: an operator whose every overload returns a string type must be compiled to an expression SQLAlchemy knows to be
+    a string: `func.<NAME>(..)` for a name outside SQLAlchemy's function registry has no type (NullType) unless `type_=`
+    is passed, and `untyped + untyped` is rendered with the numeric `+` (SQLite then adds the strings as numbers)."""
+    cat = m.cat
+    n = 0
+    for r in m.regs:
+        if r.store == "PolarsImpl" or isinstance(r.func, ast.Lambda):
+            continue
+        op = cat.ops.get(r.opvar)
+        if op is None or not all(s_.return_type.isinstance("String") or (s_.return_type.cls == "Tyvar") for s_ in op.signatures):
+            continue
+        if not any(s_.return_type.isinstance("String") for s_ in op.signatures):
+            continue
+        for ret in ast.walk(r.func):
+            if not isinstance(ret, ast.Return) or not isinstance(ret.value, ast.Call):
+                continue
+            c = ret.value
+            d = dotted(c.func) or ""
+            parts = d.split(".")
+            if len(parts) >= 2 and parts[-2] == "func":
+                n += 1
+                typed = any(k.arg == "type_" for k in c.keywords) or parts[-1].lower() in _SQLA_TYPED_FUNCS
+                chk.ob("R7", r.module, ret, f"{r.store}: ops.{r.opvar} -> {norm(c)[:70]}", typed,
+                       f"`{norm(c)[:80]}` (implementation of the string-valued operator `{op.name}` for {r.store}) has no SQL type: "
+                       "concatenating two such results with `+` is rendered as numeric addition, not `||`")  # fmt: skip
+    chk.floor("R7", "func.X(..) results of string-valued operators", n, 5)
